@@ -8,5 +8,4 @@ broadcast use {vstd::std_specs::hash::group_hash_axioms, axh::axiom_uuid_key_mod
 //@include regions/op_impl.rs
 //@include lemmas/transform.rs
 // ---- functions these properties depend on that are NOT verified (outside the verifier's reach): hashed; a change -> UNDECIDED
-//@watch C20 :: src/replica.rs :: impl<S: Storage> Replica<S> :: fn expire_tasks
 //@include prelude/tail.rs
